@@ -72,7 +72,7 @@ def edge_list(draw, n, family=None, max_extra=None):
 
 @st.composite
 def graph_case(draw, nmin=1, nmax=6, labels=('int',), weighted=None, family=None, directed=False,
-               shuffle=True, wpool=None):
+               shuffle=True, wpool=None, selfloops=False):
     """-> {'nodes','edges','ew','nw','directed'} with labels applied; insertion order shuffled."""
     n = draw(st.integers(nmin, nmax))
     lab = draw(label_scheme(n, labels))
@@ -88,6 +88,10 @@ def graph_case(draw, nmin=1, nmax=6, labels=('int',), weighted=None, family=None
         es = es2
     elif shuffle:
         es = [[b, a] if draw(st.booleans()) else [a, b] for a, b in es]
+    if selfloops and draw(st.integers(0, 2)) == 0:
+        for i in range(n):
+            if draw(st.integers(0, 2)) == 0:
+                es.append([i, i])
     if shuffle and es:
         es = list(draw(st.permutations(es)))
     order = list(range(n))
@@ -96,6 +100,8 @@ def graph_case(draw, nmin=1, nmax=6, labels=('int',), weighted=None, family=None
     nodes = [lab[i] for i in order]
     edges = [[lab[a], lab[b]] for a, b in es]
     gc = {'nodes': nodes, 'edges': edges, 'ew': None, 'nw': None, 'directed': bool(directed)}
+    if any(a == b for a, b in es):
+        gc['selfloops'] = True
     w = draw(st.booleans()) if weighted is None else weighted
     pool = wpool or WPOOL
     if w:
